@@ -248,3 +248,96 @@ func (p *Prog) findDrain() *drain {
 	d.InRd = inRd
 	return d
 }
+
+// ---------------------------------------------------------------- effects performed through helpers
+
+// effect is a recognisable instruction (a status store, an index insert, the start of the read loop ...).
+type effect struct {
+	name string
+	is   func(ssa.Instruction) bool
+}
+
+// performs lists the instructions of fn that perform the effect: the effect itself, or a static call to a
+// named helper of the same package that performs it on every path from its entry (depth <= 2).
+func (p *Prog) performs(fn *ssa.Function, ef effect, depth int) []ssa.Instruction {
+	var out []ssa.Instruction
+	Instrs(fn, func(i ssa.Instruction) {
+		if ef.is(i) {
+			out = append(out, i)
+			return
+		}
+		call, ok := i.(*ssa.Call)
+		if !ok || depth >= 2 {
+			return
+		}
+		h := call.Call.StaticCallee()
+		if h == nil || h == fn || h.Pkg != fn.Pkg || h.Parent() != nil || len(h.Blocks) == 0 {
+			return
+		}
+		if p.helperPerforms(h, ef, depth+1) {
+			out = append(out, i)
+		}
+	})
+	return out
+}
+
+func (p *Prog) helperPerforms(h *ssa.Function, ef effect, depth int) bool {
+	perf := p.performs(h, ef, depth)
+	if len(perf) == 0 {
+		return false
+	}
+	ok, _ := p.MustPassFromEntry(h, func(i ssa.Instruction) bool {
+		for _, x := range perf {
+			if x == i {
+				return true
+			}
+		}
+		return false
+	}, nil)
+	return ok
+}
+
+type callSite struct {
+	fn *ssa.Function
+	in ssa.Instruction
+}
+
+// callSitesOf lists the static call sites of h in the shipped program; ok is false when h also escapes as a value.
+func (p *Prog) callSitesOf(h *ssa.Function) (sites []callSite, ok bool) {
+	for _, fn := range p.ShippedFuncs() {
+		for _, call := range AllCalls(fn) {
+			if call.Common().StaticCallee() == h {
+				sites = append(sites, callSite{fn, call})
+			}
+		}
+	}
+	return sites, len(p.funcValueUses(h)) == 0
+}
+
+// guardedBySites: instruction `in` of fn runs only after hook success: fn is an establishment site and `in` is
+// dominated by one of its success edges, or fn is a helper whose every call site is guarded (depth <= 2).
+func (p *Prog) guardedBySites(sites []establishmentSite, fn *ssa.Function, in ssa.Instruction, depth int) bool {
+	for _, s := range sites {
+		if s.fn == fn {
+			for _, b := range s.okBlocks {
+				if BlockDominatesInstr(b, in) {
+					return true
+				}
+			}
+			return false
+		}
+	}
+	if depth >= 2 || fn.Parent() != nil {
+		return false
+	}
+	cs, noEscape := p.callSitesOf(fn)
+	if !noEscape || len(cs) == 0 {
+		return false
+	}
+	for _, c := range cs {
+		if !p.guardedBySites(sites, c.fn, c.in, depth+1) {
+			return false
+		}
+	}
+	return true
+}
